@@ -113,7 +113,7 @@ def inBucket (I b : Int) (v : Int) : Bool := decide (b ≤ v) && decide (v < b +
 /-- The histogram finaliser on the kept values; `I` is the scaled interval. -/
 def histBuckets (I : Int) (nums : List Int) : List (Int × Nat) :=
   match nums with
-  | [] => []            -- the Go code indexes an empty slice here (C06); see `crashes`
+  | [] => []            -- `if len(fieldValues) == 0 { return outErr }` (fix 5f…: it indexed an empty slice)
   | x :: xs =>
     let mn := minOf x xs
     let mx := maxOf x xs
@@ -122,6 +122,9 @@ def histBuckets (I : Int) (nums : List Int) : List (Int × Nat) :=
       (start + (j : Int) * I, nums.countP (inBucket I (start + (j : Int) * I)))
 
 def histRows (numOf : String → Option Int) (interval : Nat) (vals : List JV) : List (Int × Nat) :=
+  -- interval 0: `math.Floor(min/0)*0` is NaN whatever `min` is, and `NaN <= max` is false: the
+  -- bucket loop does not run (no row, no crash, no endless loop)
+  if interval = 0 then [] else
   histBuckets ((interval : Int) * 1024) (numericFeed numOf vals)
 
 /-! ### percentile (the t-digest is a parameter) -/
@@ -208,10 +211,9 @@ def rowsOf (n : String) (out : List Row) : List Row := out.filter (fun r => r.na
 
 def dupNames (aggs : List Named) : Bool := !(decide (aggs.map (·.name)).Nodup)
 
-def crashes (numOf : String → Option Int) (aggs : List Named) (ts : List Elem) : Bool :=
-  dupNames aggs || aggs.any fun a => match a.agg with
-    | .histogram f i => i == 0 || (numericFeed numOf (ts.map (fun t => lookup t f))).isEmpty
-    | _ => false
+/-- the compiler refuses the step (duplicate names; C06's `dupCheck`). The former crash region
+    (histogram without a numeric value, interval 0) is inside the model since the repairs. -/
+def rejected (aggs : List Named) : Bool := dupNames aggs
 
 end Grip.C19
 
